@@ -12,6 +12,8 @@ TIMEOUT = {'quick': 1500, 'thorough': 10800}
 EXHAUSTIVE = {'quick': 'every string of 0..4 tokens over the 28-token notation alphabet (637 421 strings)',
               'thorough': 'every string of 0..5 tokens over the 28-token notation alphabet (17 847 789 strings)'}
 RULE = ('strings: exhaustive token strings over {P,K,B,X,[ ] ( ) { } < > ? - + / ^ @ # | : , . 1 2 Acetyl \\ space}, '
+        'grammar-aware decorations of valid strings (a ^n multiplier after every kind of bracket group, two-token '
+        'mutations), every vocabulary entry without mass and composition for the deferred clause, '
         'random strings up to 40 tokens, single-token mutations (delete/insert/swap/duplicate) of generated valid '
         'strings, and 8 positions x a corpus of unresolvable modification values for the deferred clause. '
         'signature = (clause, outcome class, class of first token, class of last token, set of bracket kinds present); '
@@ -216,6 +218,35 @@ def mutations(ctx, n_valid):
             yield ''.join(c), tuple(c)
 
 
+def decorated(ctx, n_valid):
+    """grammar-aware decorations of valid strings: a multiplier after every kind of bracket group (incl. global rules,
+    isotope labels and adduct blocks), doubled separators, and two-token mutations"""
+    rng = ctx.rng
+    cfg = gp.GenCfg(max_len=6, p_charge=0.6, p_adducts=0.7, p_static=0.4, p_isotope=0.3, p_labile=0.3, p_unknown=0.3,
+                    p_interval=0.3)
+    for _ in range(n_valid):
+        base = rp.write(gp.gen_pep(rng, cfg))
+        closers = [i for i, ch in enumerate(base) if ch in ']}>)']
+        for i in closers:
+            for k in ('^0', '^1', '^2', '^12', '^', '^-1', '^2^3'):
+                if rng.random() < 0.35:
+                    t = base[:i + 1] + k + base[i + 1:]
+                    yield t, tuple(t)
+        for _j in range(6):
+            c = list(base)
+            for _k in range(2):
+                pos = rng.randrange(len(c) + 1)
+                op = rng.choice(['insert', 'insert', 'delete', 'dup'])
+                if op == 'insert' or not c:
+                    c.insert(pos, rng.choice(TOKENS))
+                elif op == 'delete':
+                    del c[min(pos, len(c) - 1)]
+                else:
+                    pos = min(pos, len(c) - 1)
+                    c.insert(pos, c[pos])
+            yield ''.join(c), tuple(c)
+
+
 def deferred(ctx, pt):
     """Syntactically valid string + unresolvable modification: parse accepts, mass/comp must raise ValueError."""
     i = 0
@@ -247,6 +278,35 @@ def deferred(ctx, pt):
                                    'msg': str(e)[:160]})
                 ctx.decided()
                 ctx.sig(('deferred', pos, v.split(':')[0], fn_name), True)
+    # vocabulary entries that exist but carry neither a mass nor a composition: nothing to count, so they must be rejected
+    from vf.ref import obo
+    uni_names = {e.name for e in obo.unimod()}
+    massless = [('MOD:' + e.id, e.name if e.name not in uni_names else None) for e in obo.psimod()
+                if e.mono is None and e.avg is None and e.raw_comp is None]
+    # XLMOD is documented through prefixed spellings only (a bare XLMOD name may name a Unimod / PSI-MOD entry)
+    massless += [('XLMOD:' + e.id, 'X:' + e.name) for e in obo.xlmod() if e.mono is None and e.raw_comp is None]
+    for acc, name in massless:
+        for spelled in (acc, name if name and gp.writable(name) and name.count(':') <= (1 if name.startswith('X:') else 0)
+                        else None):
+            if spelled is None:
+                continue
+            i += 1
+            if not ctx.mine(i):
+                continue
+            s = POSITIONS[list(POSITIONS)[i % len(POSITIONS)]].format(v=spelled)
+            for fn_name in ('mass', 'comp'):
+                ctx.begin({'clause': 'deferred', 'string': s, 'function': fn_name})
+                try:
+                    r = getattr(pt, fn_name)(s)
+                    ctx.violation('unresolvable-mod-silently-accepted',
+                                  {'string': s, 'function': fn_name, 'returned': repr(r)[:120]})
+                except ValueError:
+                    pass
+                except BaseException as e:
+                    ctx.violation('unresolvable-mod-wrong-exception',
+                                  {'string': s, 'function': fn_name, 'exception': type(e).__name__, 'msg': str(e)[:160]})
+                ctx.decided()
+            ctx.sig(('deferred-massless-entry', acc.split(':')[0], i % len(POSITIONS), spelled == acc), True)
     # global isotope labels that name no isotope, and adduct ions of an unknown element
     extra = [('isotope-label', '<bad>PEPTIDE', ('mass', 'comp')), ('isotope-label', '<Xx>PEPTIDE', ('mass', 'comp')),
              ('isotope-label', '<C13>PEPTIDE', ('mass', 'comp')), ('isotope-label', '<13C><bad>PEPTIDE', ('mass', 'comp')),
@@ -287,6 +347,7 @@ def run(ctx):
         run_strings(ctx, st, pt, exhaustive(ctx, 4 if ctx.quick() else 5), 'total-exhaustive')
         run_strings(ctx, st, pt, random_strings(ctx, ctx.n(60000, 1200000)), 'total-random')
         run_strings(ctx, st, pt, mutations(ctx, ctx.n(6000, 120000)), 'total-mutation')
+        run_strings(ctx, st, pt, decorated(ctx, ctx.n(4000, 80000)), 'total-decorated')
         deferred(ctx, pt)
     finally:
         obs.stop()
